@@ -1271,6 +1271,10 @@ class ElementListCouplingMixin(ElementList[T], t.Generic[T]):
             )
 
         accessor.__set__(self._parent, new_objs)
+        # mirror the edit in this list object, as insert() and
+        # __delitem__() do
+        fresh = accessor.__get__(self._parent, type(self._parent))
+        self._elements[:] = fresh._elements
 
     def __delitem__(self, index: int | slice) -> None:
         if self.fixed_length and len(self) <= self.fixed_length:
